@@ -56,12 +56,20 @@ type Spec struct {
 	// ForMethod is the method of the request a response answers ("" = GET). A response to HEAD carries the
 	// framing headers of its Framing/Size but no body bytes.
 	ForMethod string `json:"for_method,omitempty"`
+	// Adjust changes the PARSED form of a request the way a modifier upstream of the logger may have left it:
+	// "te+cl": Transfer-Encoding [chunked] and ContentLength = body length at once (martian's body.Modifier sets
+	// ContentLength and leaves TransferEncoding alone; net/http and messageview go by the transfer coding);
+	// "unknown-length": no transfer coding and ContentLength -1 with a body (net/http sends it chunked).
+	Adjust string `json:"adjust,omitempty"`
 }
 
 func (s Spec) String() string {
 	str := fmt.Sprintf("%s/%s %s%s%d v%s size=%d %s/%s tr=%d enc=%s ct=%s q=%d ck=%d x=%d loc=%d", s.Space, s.Kind, s.Method, map[bool]string{true: " ", false: ""}[s.Method != ""], s.Status, s.Version, s.Size, s.Framing, s.Chunking, s.Trailers, s.Enc, s.CT, s.Query, s.Cookies, s.Extra, s.Loc)
 	if s.ForMethod != "" {
 		str += " for=" + s.ForMethod
+	}
+	if s.Adjust != "" {
+		str += " adjust=" + s.Adjust
 	}
 	return str
 }
@@ -122,8 +130,12 @@ var (
 	TrailerPool = []KV{{"X-T1", "v1"}, {"X-T2", "second value"}}
 
 	// entries 0..3 are enumerated by HeaderSpace; entry 4 (a percent-encoded value that is not UTF-8) by EdgeSpace
-	QueryRaw           = []string{"", "a=1", "x=1&y=%20z%26&x=3&empty=", "q=a+b&%D0%BA=%D0%B2", "b=%FF%FE&ok=1"}
-	QueryTruth         = [][]KV{nil, {{"a", "1"}}, {{"x", "1"}, {"y", " z&"}, {"x", "3"}, {"empty", ""}}, {{"q", "a b"}, {"к", "в"}}, {{"b", "\xff\xfe"}, {"ok", "1"}}}
+	// entries 5 and 6 (EdgeSpace): '=' inside values (a URL, base64 padding, an equation), '=' inside a name
+	// (%3D), an empty name, a flag without '=', a lone '='
+	QueryRaw = []string{"", "a=1", "x=1&y=%20z%26&x=3&empty=", "q=a+b&%D0%BA=%D0%B2", "b=%FF%FE&ok=1",
+		"next=/login?user=bob&sig=YWJjZA==&expr=1+1=2", "a%3Db=c&=v&flag&x=1=2=3&="}
+	QueryTruth = [][]KV{nil, {{"a", "1"}}, {{"x", "1"}, {"y", " z&"}, {"x", "3"}, {"empty", ""}}, {{"q", "a b"}, {"к", "в"}}, {{"b", "\xff\xfe"}, {"ok", "1"}},
+		{{"next", "/login?user=bob"}, {"sig", "YWJjZA=="}, {"expr", "1 1=2"}}, {{"a=b", "c"}, {"", "v"}, {"flag", ""}, {"x", "1=2=3"}, {"", ""}}}
 	headerSpaceQueries = 4
 
 	ReqCookieHeaders = [][]string{nil, {"a=1"}, {"a=1; b=two"}, {"a=1", "b=2"}}
@@ -380,6 +392,32 @@ func EdgeSpace(tier string) []Spec {
 		}
 		if f.framing != "none" {
 			out = append(out, Spec{Space: "edge", Kind: "response", Status: 200, Version: "1.1", Size: 5, Framing: f.framing, Chunking: f.chunking, Trailers: f.trailers, Enc: "none", CT: "text", Extra: 3, Cookies: 1})
+		}
+	}
+	// '=' in query values and names, empty names, flags
+	for _, f := range []fr{{"none", "", 0}, {"cl", "", 0}, {"chunked", "whole", 0}} {
+		for _, q := range []int{5, 6} {
+			s := Spec{Space: "edge", Kind: "request", Method: "POST", Version: "1.1", Size: 5, Framing: f.framing, Chunking: f.chunking, Enc: "none", CT: "text", Query: q}
+			if f.framing == "none" {
+				s.Method, s.CT, s.Size = "GET", "none", 0
+			}
+			out = append(out, s)
+		}
+	}
+	// parsed forms a modifier may leave behind: chunked AND a content length; a body of unknown length
+	for _, adj := range []string{"te+cl", "unknown-length"} {
+		frs := []fr{{"chunked", "first1", 0}, {"chunked", "fixed1000", 0}, {"chunked", "whole", 0}}
+		if adj == "unknown-length" {
+			frs = []fr{{"cl", "", 0}}
+		}
+		for _, f := range frs {
+			for _, ct := range []string{"text", "binary", "form:P2", "multipart:M2"} {
+				for _, enc := range []string{"none", "gzip"} {
+					for _, size := range append([]int{4096}, sizes...) {
+						out = append(out, Spec{Space: "edge", Kind: "request", Method: "POST", Version: "1.1", Size: size, Framing: f.framing, Chunking: f.chunking, Trailers: f.trailers, Enc: enc, CT: ct, Query: 1, Adjust: adj})
+					}
+				}
+			}
 		}
 	}
 	// 206 Partial Content: a fragment of a (possibly content-coded) representation
@@ -857,6 +895,10 @@ func Build(s Spec) *Msg {
 		w.WriteString("\r\n")
 	}
 	m.Wire = w.Bytes()
+	if s.Adjust == "te+cl" && len(m.Encoded) > 0 {
+		// the message the logger sees has a content length as well (not on the wire the client sent)
+		add("Content-Length", strconv.Itoa(len(m.Encoded)))
+	}
 	m.NonTrivial = len(m.Encoded) > 0 && (s.Framing == "chunked" || s.Framing == "close" || s.Enc != "none")
 	return m
 }
@@ -892,7 +934,17 @@ const StdResponseWire = "HTTP/1.1 200 OK\r\nContent-Type: text/plain\r\nContent-
 
 // ParseRequest parses the wire bytes of a request message.
 func (m *Msg) ParseRequest() (*http.Request, error) {
-	return http.ReadRequest(bufio.NewReader(bytes.NewReader(m.Wire)))
+	req, err := http.ReadRequest(bufio.NewReader(bytes.NewReader(m.Wire)))
+	if err != nil {
+		return nil, err
+	}
+	switch m.Spec.Adjust {
+	case "te+cl":
+		req.ContentLength = int64(len(m.Encoded))
+	case "unknown-length":
+		req.ContentLength, req.TransferEncoding = -1, nil
+	}
+	return req, nil
 }
 
 // ParseResponse parses the wire bytes of a response message (as the answer to req).
